@@ -927,10 +927,19 @@ def file_failure_class(desc, rows, r, fmt, multi, parser, insts, T, X):
     sheet_order = run_cli_mode(lambda: RowDataSheet(parser, insts, set(T), set(X))._get_headers())
     sheet_order = sheet_order[1] if sheet_order[0] == "ok" and sorted(sheet_order[1]) == sorted(headers) else None
 
-    def predicted(eq, order):
+    def predicted(eq, order, drop_blank_aliases=False):
         out = []
         for d in dicts:
             cells = {h: d.get(h, "") for h in headers}
+            if drop_blank_aliases:
+                # the same sheet without the blank cells that the row context re-keys onto a field another, non-blank
+                # cell of the row writes: if this reads the same, the re-keying played no part in the result
+                keyed = {}
+                for h, c in cells.items():
+                    k = run_cli_mode(lambda: parser.model.header_name_to_field_name_with_context(h, cells))
+                    keyed[h] = k[1] if k[0] == "ok" else h
+                cells = {h: c for h, c in cells.items()
+                         if not (c == "" and any(x != h and keyed[x] == keyed[h] and cells[x] != "" for x in cells))}
             if eq:
                 cells = {h: ("" if s.startswith("=") and len(s) > 1 else s) for h, s in cells.items()}
             if order is None:
@@ -960,7 +969,11 @@ def file_failure_class(desc, rows, r, fmt, multi, parser, insts, T, X):
         return False
 
     if multi and sheet_order is not None and rekey_collision() \
-            and all(a is not None and _deep_eq(a, b) for a, b in zip(predicted(fmt == "xlsx", sheet_order), r[1])):
+            and all(a is not None and _deep_eq(a, b) for a, b in zip(predicted(fmt == "xlsx", sheet_order), r[1])) \
+            and not all(a is not None and _deep_eq(a, b) for a, b in zip(predicted(fmt == "xlsx", sheet_order, drop_blank_aliases=True), r[1])):
+        # causal: the file result is explained by the padded sheet AND is NOT explained once the blank alias cells are
+        # taken out (on a tree where a blank cell no longer overwrites its alias the second reading equals the first,
+        # and the failure belongs to whatever else explains it)
         return "sheet-padding-cell-rekeyed-onto-written-column"
     if multi and any(all(a is not None and _deep_eq(a, b) for a, b in zip(predicted(False, o), r[1])) for o in orders):
         return "sheet-padding-cells-become-list-elements"
